@@ -61,10 +61,6 @@ MUTANTS = [
  ("c08_last_sequence_allows_equal", "C08", [
    ("header_fields.go", "if last >= current {", "if last > current {"),
  ]),
- ("c09_ascii_handler_cached_per_connection_remote", "C09", [
-   ("cmds/server/handlers/authen.go", "func (a *AuthenticateStart) Handle(response tq.Response, request tq.Request) {\n\tvar body tq.AuthenStart",
-                                      "var asciiByUser = map[string]*AuthenticateASCII{}\n\n// Handle ...\nfunc (a *AuthenticateStart) Handle(response tq.Response, request tq.Request) {\n\tvar body tq.AuthenStart"),
- ]),
  ("c10_last_group_authenticator_wins", "C10", [
    ("cmds/server/loader/loader.go", "\t\t\tif u.Authenticator != nil {\n\t\t\t\tl.Debugf(l.ctx, \"skipping authenticator for scope [%v] user [%v], it's already set at the user level\", scope, u.Name)\n\t\t\t} else {\n\t\t\t\tu.Authenticator = g.Authenticator\n\t\t\t}",
                                     "\t\t\tif u.Authenticator != nil && !fromGroup {\n\t\t\t\tl.Debugf(l.ctx, \"skipping authenticator for scope [%v] user [%v], it's already set at the user level\", scope, u.Name)\n\t\t\t} else {\n\t\t\t\tu.Authenticator = g.Authenticator\n\t\t\t\tfromGroup = true\n\t\t\t}"),
